@@ -2,7 +2,7 @@
     specification vocabulary of Can/FrameStringSpec.v.  No bound on strings, IDs or payloads
     other than those in the statements. *)
 From Coq Require Import ZArith List Bool Lia.
-From CanVerif Require Import Base.Dec Base.Hex Can.Data Can.Frame Can.FrameProofs Can.FrameString Can.FrameStringSpec.
+From CanVerif Require Import Base.Bits Base.Dec Base.Hex Can.Data Can.Frame Can.FrameProofs Can.FrameString Can.FrameStringSpec.
 Import ListNotations.
 Open Scope Z_scope.
 
@@ -397,4 +397,90 @@ Corollary unmarshal_string_pattern s :
 Proof.
   intros (idp & tail & -> & Hi & Ht). exists idp, tail. split; [reflexivity|].
   intros dst. apply unmarshal_string_accepts; assumption.
+Qed.
+
+(** * Exactness: the parser accepts the documented pattern and, beyond it, only  id # R9
+    (Atoi of one character yields 0..9; the resulting frame has length 9 and fails Validate) *)
+Fixpoint join (sep : Z) (parts : list (list Z)) : list Z :=
+  match parts with
+  | [] => []
+  | [p] => p
+  | p :: rest => p ++ sep :: join sep rest
+  end.
+
+Lemma split_nonempty sep s : split sep s <> [].
+Proof.
+  destruct s as [|c r]; cbn [split]; [discriminate|].
+  destruct (c =? sep); [discriminate|]. destruct (split sep r); discriminate.
+Qed.
+
+Lemma join_split sep s : join sep (split sep s) = s.
+Proof.
+  induction s as [|c r IH]; [reflexivity|].
+  cbn [split]. destruct (Z.eqb_spec c sep) as [->|Hne].
+  - pose proof (split_nonempty sep r) as Hn. destruct (split sep r) as [|h t] eqn:E; [contradiction|].
+    cbn [join app]. cbn [join] in IH. rewrite IH. reflexivity.
+  - pose proof (split_nonempty sep r) as Hn. destruct (split sep r) as [|h t] eqn:E; [contradiction|].
+    destruct t as [|h2 t2]; cbn [join] in *; rewrite <- IH; reflexivity.
+Qed.
+
+Lemma lor32_cases c : Z.lor c 32 = c \/ Z.lor c 32 = c + 32.
+Proof.
+  pose proof (land_pow2 c 5 ltac:(lia)) as L. change (2 ^ 5) with 32 in L.
+  destruct (Z.testbit c 5) eqn:E.
+  - left. apply Z.bits_inj'. intros i Hi. rewrite Z.lor_spec. change 32 with (2 ^ 5).
+    rewrite Z.pow2_bits_eqb by lia. destruct (Z.eqb_spec 5 i) as [<-|]; [rewrite E; reflexivity|apply orb_false_r].
+  - right. rewrite <- (Z.lxor_lor c 32 L). symmetry. apply Z.add_nocarry_lxor. exact L.
+Qed.
+
+Lemma pu_digit_hex_inv c d : pu_digit c = Some d -> d < 16 -> is_hex c.
+Proof.
+  unfold pu_digit, lower, is_hex.
+  destruct (Z.leb_spec 48 c), (Z.leb_spec c 57); cbn [andb]; try (intros; lia).
+  all: destruct (Z.leb_spec 97 (Z.lor c 32)), (Z.leb_spec (Z.lor c 32) 122); cbn [andb]; try discriminate.
+  all: intros E Hd; inversion E; subst; destruct (lor32_cases c) as [L|L]; rewrite L in *; lia.
+Qed.
+
+Lemma pu_loop_hex_inv maxval s : forall n r, pu_loop 16 maxval s n = PU_ok r -> Forall is_hex s.
+Proof.
+  induction s as [|c s IH]; intros n r H; [constructor|].
+  cbn [pu_loop] in H. destruct (pu_digit c) as [d|] eqn:Ed; [|discriminate].
+  destruct (Z.leb_spec 16 d); [discriminate|].
+  destruct (pu_cutoff 16 <=? n); [discriminate|]. cbv zeta in H.
+  match type of H with (if ?b then _ else _) = _ => destruct b end; [discriminate|].
+  constructor; [apply (pu_digit_hex_inv c d Ed); lia|]. eapply IH. exact H.
+Qed.
+
+Theorem unmarshal_string_accepts_only s dst f :
+  unmarshal_string s dst = (Ok, f) ->
+  exists idp tail, s = idp ++ 35 :: tail /\ id_part_ok is_hex idp /\ (tail_ok is_hex tail \/ tail = [82; 57]).
+Proof.
+  unfold unmarshal_string. pose proof (join_split ch_hash s) as Hj.
+  destruct (split ch_hash s) as [|a [|b [|c r]]]; try discriminate.
+  2:{ cbn [length]. destruct (Z.eqb_spec (Z.of_nat (S (S (S (length r))))) 2); [lia|discriminate]. }
+  cbn [join] in Hj. change (negb (Z.of_nat (length [a; b]) =? 2)) with false. cbn [nth_error]. cbv iota.
+  destruct (negb (zlen a =? 3) && negb (zlen a =? 8)) eqn:El; [discriminate|].
+  destruct (parse_uint a 16 32) as [id| |] eqn:Ep; try discriminate.
+  assert (Ha : id_part_ok is_hex a).
+  { split.
+    - apply andb_false_iff in El. unfold zlen in El. destruct El as [El|El]; apply negb_false_iff, Z.eqb_eq in El; lia.
+    - unfold parse_uint in Ep. destruct a; [discriminate|]. eapply pu_loop_hex_inv. exact Ep. }
+  intros H. exists a, b. split; [symmetry; exact Hj|]. split; [exact Ha|].
+  destruct (zlen b =? 0) eqn:Eb0.
+  { left. right. right. destruct b; [|unfold zlen in Eb0; cbn [length] in Eb0; apply Z.eqb_eq in Eb0; lia]. split; [constructor|]. exists 0%nat. split; [reflexivity|lia]. }
+  destruct b as [|c0 b']; [discriminate Eb0|]. cbn [nth_error] in H.
+  destruct (Z.eqb_spec c0 ch_R) as [->|Hne].
+  - destruct (Z.ltb_spec 2 (zlen (ch_R :: b'))) as [|Hle]; [discriminate|].
+    destruct (Z.eqb_spec (zlen (ch_R :: b')) 2) as [E2|E2]; unfold zlen in *; cbn [length] in *.
+    + destruct b' as [|c1 [|c2 b'']]; cbn [length] in *; try lia.
+      cbn [str_slice Nat.leb length andb Nat.sub skipn firstn] in H. rewrite atoi_single in H.
+      unfold is_digit in H. destruct (Z.leb_spec 48 c1), (Z.leb_spec c1 57); cbn [andb] in H; try discriminate.
+      destruct (Z.eq_dec c1 57) as [->|]; [right; reflexivity|].
+      left. right. left. exists c1. split; [reflexivity|lia].
+    + left. left. destruct b' as [|c1 b'']; [reflexivity|]. cbn [length] in *. lia.
+  - destruct (Z.ltb_spec 16 (zlen (c0 :: b'))); [discriminate|]. cbn [orb] in H.
+    destruct (negb (zlen (c0 :: b') mod 2 =? 0)); [discriminate|].
+    destruct (hex_decode (c0 :: b')) as [dec|] eqn:Ed; [|discriminate].
+    destruct (hex_decode_inv (length (c0 :: b')) (c0 :: b') dec (le_n _) Ed) as (_ & Hl & Hh).
+    left. right. right. split; [exact Hh|]. exists (length dec). split; [exact Hl|]. unfold zlen in *. lia.
 Qed.
